@@ -63,13 +63,26 @@ def notation_chunk(args):
                 out['viol'].append(({'notation': n.label, 'kind': 'render_raises'}, f'{n.label}{t}: pretty raised {type(ex).__name__}: {ex}'))
                 s = None
             apps.append((t, bridge.expand(a), s))
+        # the same applications reached through instantiation (a rebuilt argument map must still print its
+        # arguments in the notation's positions)
+        P = bridge.P
+        for t in tuples:
+            args = [pl[i] for i in t]
+            if not any(a == P.MetaVar(0) for a in args) or n.arity < 2:
+                continue
+            for repl in (P.EVar(1), P.Symbol('s')):
+                try:
+                    a2 = n(*args).instantiate({0: repl})
+                    apps.append((t + ('inst', str(repl)), bridge.expand(a2), a2.pretty(opts)))
+                except Exception as ex:  # noqa: BLE001
+                    out['viol'].append(({'notation': n.label, 'kind': 'render_raises'}, f'{n.label}{t}.instantiate: {type(ex).__name__}: {ex}'))
         for (t1, e1, s1), (t2, e2, s2) in itertools.permutations(apps, 2):
             out['evals'] += 1
             if e1 != e2:
                 out['distinct_pairs'] += 1
                 if s1 is not None and s1 == s2:
                     out['viol'].append(({'notation': n.label, 'kind': 'same_rendering'},
-                                        f'{n.label} applied to {[rend[i] for i in t1]} and to {[rend[i] for i in t2]} denote different patterns but both print as {s1!r}'))
+                                        f'{n.label} applied to {[rend[i] if isinstance(i, int) else i for i in t1]} and to {[rend[i] if isinstance(i, int) else i for i in t2]} denote different patterns but both print as {s1!r}'))
                     break
     return out
 
@@ -283,6 +296,7 @@ def main(argv=None) -> int:
     specs += [('shipped', m, c) for m, c in c02.SHIPPED]
     prim = c02.level0(4)
     exprs = prim + c02.successors(prim, prim, 6 if thorough else 4, 3 if thorough else 2)
+    exprs += [('inst', d, ()) for d in prim] + [('dinst', d, ()) for d in prim] + [('inst', ('inst', d, ()), ((0, 2),)) for d in prim[:3]]
     specs += [('expr', d) for d in exprs]
     for out in par.pmap(files_chunk, par.chunks(specs, common.ncpu() * 6)):
         for k, v in out.items():
